@@ -142,8 +142,11 @@ def field_inputs(np, geo, system, op, rank, seed):
             yield f"pair{a},{b}", units[a] + units[b]
     rng = np.random.default_rng(seed)
     g = np.zeros(full)
+    gc = np.zeros(full, dtype=complex)
     for u in units:
         g += rng.uniform(-1, 2) * u
+        gc += (rng.uniform(-1, 2) + 1j * rng.uniform(-1, 2)) * u
+    yield "generic-complex", gc
     yield "generic", g
 
 
@@ -225,16 +228,19 @@ def routes_case(case):
         # the specification is parsed on every call only for the generic input; the pre-built
         # BoundariesList (same conditions) is used for the basis enumeration
         bc = bc_raw if label == "generic" else bcs
+        dt_ = complex if np.iscomplexobj(u) else float
+        if dt_ is complex and (jit or op == "gradient_squared"):
+            continue  # complex input: interpreted kernels only; gradient_squared is not holomorphic
         with np.errstate(all="ignore"):
             # ---- R3 (reference), twice with different fillers of the ghost cells: entries that
             # depend on ghost cells the BCs leave undefined (normal-only conditions) are masked
             refs, fulls = [], []
             for filler in (0.0, 1000.0, np.nan):
-                f = cls[rank_in](grid)
+                f = cls[rank_in](grid, dtype=dt_)
                 f._data_full[...] = filler
                 f._data_full[vidx] = u
                 f.set_ghost_cells(bc, args=args) if args else f.set_ghost_cells(bc)
-                out = np.full(out_shape, np.nan)
+                out = np.full(out_shape, np.nan, dtype=dt_)
                 raw(f._data_full, out)
                 refs.append(out)
                 fulls.append(f._data_full.copy())
@@ -272,7 +278,7 @@ def routes_case(case):
                 n += 1
                 if not close(r, ref, mask, tol):
                     bad(f"make_operator[{b}]", label, r, ref, mask)
-                buf = np.full(out_shape, 4321.0)
+                buf = np.full(out_shape, 4321.0, dtype=dt_)
                 r2 = fop(u, out=buf, args=a_) if args else fop(u, out=buf)
                 n += 1
                 if not (close(buf, ref, mask, tol)):
@@ -281,7 +287,7 @@ def routes_case(case):
                     viol.append({"sig": f"{sig0}|make_operator[{b}] does not return the supplied out array",
                                  "msg": f"{grid_name(spec)} {op}", "detail": None})
             # ---- R1: field methods
-            f = cls[rank_in](grid)
+            f = cls[rank_in](grid, dtype=dt_)
             f._data_full[...] = 0.0
             f._data_full[vidx] = u
             r = f.apply_operator(op, bc=bc, args=args) if args else f.apply_operator(op, bc=bc)
@@ -292,10 +298,10 @@ def routes_case(case):
                 viol.append({"sig": f"{sig0}|field.apply_operator returns a field of the wrong rank", "msg": str(type(r)), "detail": None})
             meth = FIELD_METHODS.get(op)
             if meth is not None:
-                f = cls[rank_in](grid)
+                f = cls[rank_in](grid, dtype=dt_)
                 f._data_full[...] = 0.0
                 f._data_full[vidx] = u
-                o = cls[rank_out](grid)
+                o = cls[rank_out](grid, dtype=dt_)
                 o._data_full[...] = 55.0
                 kw = {"args": args} if args else {}
                 r = getattr(f, meth)(bc, out=o, **kw)
@@ -305,7 +311,7 @@ def routes_case(case):
                 if not close(o.data, ref, mask, tol):
                     bad(f"field.{meth}(out=)", label, o.data, ref, mask)
                 if "scipy" in ops_bc:
-                    f2 = cls[rank_in](grid)
+                    f2 = cls[rank_in](grid, dtype=dt_)
                     f2._data_full[...] = 0.0
                     f2._data_full[vidx] = u
                     r = getattr(f2, meth)(bc, backend="scipy", **kw)
